@@ -217,7 +217,7 @@ func TestVF_C29(t *testing.T) {
 		"and run to quiescence; for every 5th k (thorough: all) the crash is additionally produced live (fail-stop of the bucket at mutation k + cancellation) and the half-written working directory is kept for the restart; thorough additionally crashes the restarted run once more; oracle after EVERY mutating operation of every run: in both store-gateway views " +
 		"(real MetaFetcher + IgnoreDeletionMarkFilter + DefaultDeduplicateFilter; deletion marks not yet effective / all effective) the complete selected blocks hold every sample of the original blocks and no other sample; " +
 		"at quiescence with all marks effective every sample is held exactly once; distinct = (set, crash point); non-trivial = the crash was injected")
-	nsets := r.N(7, 28)
+	nsets := r.N(7, 63)
 	r.Assume("a crash is modelled as fail-stop of the bucket at a mutating operation (every later operation fails) plus cancellation; real SIGKILL of a child process is not used")
 	r.Assume("store gateway wiring is mirrored from cmd/thanos/store.go; replica labels are ignored when comparing samples iff the compactor is configured to deduplicate on them")
 	r.Assume("a selected block serves its samples only while every file listed in its meta.json exists in the bucket")
